@@ -1,9 +1,9 @@
 """C01 configuration for ./check and mkmanifest"""
 CFG = {
   'ready': True,
-  'gens': ['gen_consts.py', 'gen_txbuilder.py', 'gen_htlc_tables.py'],
+  'gens': ['gen_consts.py', 'gen_txbuilder.py', 'gen_htlc_tables.py', 'gen_feeupd.py'],
   'props_module': 'LdkModel.Props.C01',
-  'extra_props_modules': ['LdkModel.Props.C01Stats', 'LdkModel.Props.ChanProto'],
+  'extra_props_modules': ['LdkModel.Props.C01Stats', 'LdkModel.Props.C01Fee', 'LdkModel.Props.ChanProto'],
   'models': ['c01txb', 'chan'],
   'model_bins': {'chan': 'chan'},
   'model_drivers': {'chan': 'drv_chan'},
